@@ -352,6 +352,7 @@ func runC16(e *Engine, r *Report) {
 	ruleRawMkdir(e, r)
 	ruleRefusalNeverSuccess(e, r)
 	rulePublishBeforeRecord(e, r)
+	borrow(e, r, "C10", "ERR-soft-pairs")
 	ruleSnapshotDeleteOlder(e, r)
 	ruleTempDirNamePattern(e, r)
 }
